@@ -230,6 +230,7 @@ int x_send(XSock *x, const void *buf, size_t len) {
             if (n > skip) x->out_stream.append((const char *)buf + skip, n - skip);
             x->ghost.clear();
             x->refused_offer.clear();
+            x->refusals_in_row = 0;
             x->stream_sent += n;
             x->led_from_app_bytes += n;
         } else {
@@ -243,7 +244,9 @@ int x_send(XSock *x, const void *buf, size_t len) {
         x->finish_ok_since_send = false;
     } else {
         if (taken > x->ghost.size() && judged(x) && e != ECONNRESET && e != EPIPE && e != ETIMEDOUT)
-            G->violation(x->bytestream ? "C02.refused_bytes_delivered" : "C03.failed_send_delivered", "%s: xcm_send(%zu bytes) failed with %s but the peer received %s", x->label.c_str(), len, strerror(e),
+            // (known btls defect: a refused call leaves an *incomplete* record behind, so its bytes can only show up after a
+            //  later call has flushed it - bytes of a first refusal arriving before any further call are something else)
+            G->violation(x->bytestream ? (e == EAGAIN && x->refusals_in_row == 0 ? "C02.first_refusal_bytes_delivered" : "C02.refused_bytes_delivered") : "C03.failed_send_delivered", "%s: xcm_send(%zu bytes) failed with %s but the peer received %s", x->label.c_str(), len, strerror(e),
                          x->bytestream ? strf("%zu bytes of it", taken).c_str() : "the message");
         if (x->bytestream && !is_refusal(e) && len > taken && x->failed_offer.empty() && !x->conn_failed_send) {
             // the connection failed during the call: bytes the lower layer had already taken may still arrive
@@ -251,6 +254,7 @@ int x_send(XSock *x, const void *buf, size_t len) {
             x->failed_offer.assign((const char *)buf + taken, len - taken);
         }
         if (x->bytestream && e == EAGAIN) {
+            x->refusals_in_row++;
             x->refused_offer.assign((const char *)buf, len);
             x->ghost.assign((const char *)buf, std::min(taken, len));
         }
@@ -319,9 +323,10 @@ int x_receive(XSock *x, void *buf, size_t cap) {
                     p->out_stream.clear();
                     p->inflight_taken += from_inflight;
                 } else if (avail.size() >= n && memcmp(avail.data(), buf, n) == 0 && from_refused) {
-                    G->violation("C02.refused_bytes_delivered", "%s: received %zu byte(s) of an xcm_send call of the peer that was refused with EAGAIN and has not been retried yet", x->label.c_str(), from_refused);
                     p->out_stream.clear();
                     p->ghost.append(p->refused_offer, p->ghost.size(), from_refused);
+                    // (the known btls defect captures at most one TLS record - 16384 bytes - of a refused call)
+                    G->violation(p->refusals_in_row == 1 ? "C02.first_refusal_bytes_delivered" : "C02.refused_bytes_delivered", "%s: received %zu byte(s) (%zu so far) of an xcm_send call of the peer that was refused with EAGAIN and has not been retried yet", x->label.c_str(), from_refused, p->ghost.size());
                 } else
                 if (p->out_stream.size() < n || memcmp(p->out_stream.data(), buf, n) != 0) {
                     size_t off = 0;
